@@ -506,6 +506,18 @@ where
         phase(ctx, &f, &t, "same cache after gc and new nodes", &mut cache);
         set_order(&mref, &(0..n).collect::<Vec<_>>());
         phase(ctx, &g, &t2, "same cache after a second set_var_order", &mut cache);
+        // a sampled function is dropped and collected (no reordering): its nodes' ids / addresses are
+        // handed out again to the next functions, which are then sampled with the same cache
+        for round2 in 0..3 {
+            let t3 = Tt::random(n, &mut frng);
+            let doomed = build_shannon::<K>(&mref, &t3);
+            phase(ctx, &doomed, &t3, "same cache, function that is dropped next", &mut cache);
+            drop(doomed);
+            mref.with_manager_exclusive(|m| m.gc());
+            let t4 = if round2 % 2 == 0 { Tt::random(n, &mut frng) } else { Tt::random_biased(n, &mut frng) };
+            let h = build_shannon::<K>(&mref, &t4);
+            phase(ctx, &h, &t4, "same cache after the sampled function was dropped and collected", &mut cache);
+        }
         ctx.sample(|| format!("{k} pick_cube_uniform with one cache across set_var_order {order:?} / other handle / gc / set_var_order: 5 x {draws} draws, chi-square per phase"));
     }
 }
